@@ -35,11 +35,11 @@ type Report struct {
 	MapRangeSites   []string       `json:"map_range_sites"`
 	MapKeysSites    []string       `json:"map_keys_sites"`
 	OSRewrites      map[string]int `json:"os_rewrites"`
-	Unmodelled      map[string]int `json:"unmodelled_calls"`       // side-effecting selectors left real (main module)
-	DepOSUses       map[string]int `json:"dep_os_uses"`            // os/time selectors in vendored deps (left real)
-	GoStatements    []string       `json:"go_statements"`          // in the main module
-	SyncImports     []string       `json:"sync_imports"`           // in the main module
-	RandImports     []string       `json:"rand_imports"`           // in the main module
+	Unmodelled      map[string]int `json:"unmodelled_calls"`        // side-effecting selectors left real (main module)
+	DepOSUses       map[string]int `json:"dep_os_uses"`             // os/time selectors in vendored deps (left real)
+	GoStatements    []string       `json:"go_statements"`           // in the main module
+	SyncImports     []string       `json:"sync_imports"`            // in the main module
+	RandImports     []string       `json:"rand_imports"`            // in the main module
 	GenericMapRange []string       `json:"generic_map_range_sites"` // range over type-parameter typed maps (rewritten as well)
 	Modules         []string       `json:"instrumented_modules"`
 	Packages        int            `json:"packages"`
